@@ -131,6 +131,46 @@ theorem one_keepalive_per_tick (evs : List LifeEv) (ok : Bool) :
   · have hl1 : (lifeRun {} evs).loops = 1 := by have := hinv.1; omega
     cases ok <;> simp [lifeStep, hl1]
 
+/-- **Stop can only be kept waiting by a Start that has not finished**: in every reachable state, a `Stop` that does
+not return at once finds a start attempt in progress (and returns once that attempt has started its loop or failed) -/
+theorem stop_blocks_only_while_starting (evs : List LifeEv) (h : (lifeStep (lifeRun {} evs) .stop).2 = .blocked) :
+    (lifeRun {} evs).starting = true := by
+  obtain ⟨_, h2, _⟩ := inv_run {} evs inv_init
+  generalize lifeRun {} evs = s at h h2
+  simp only [lifeStep] at h
+  by_cases hl : s.loops = 0
+  · simp only [hl, if_true] at h
+    by_cases hs : s.started = true
+    · rcases h2.mp hs with h' | h'
+      · exact h'
+      · omega
+    · simp [hs] at h
+  · simp [hl] at h
+
+/-- two callers stopping at once: served in either order, both return (the second finds the loop gone) -/
+theorem two_stops_both_return (s : Life) (h : Inv s) (hs : s.starting = false) :
+    (lifeStep s .stop).2 ≠ .blocked ∧ (lifeStep (lifeStep s .stop).1 .stop).2 ≠ .blocked := by
+  obtain ⟨h1, h2, _⟩ := h
+  simp only [lifeStep]
+  by_cases hl : s.loops = 0
+  · have hst : s.started = false := by
+      cases hstd : s.started
+      · rfl
+      · rcases h2.mp hstd with h' | h'
+        · rw [hs] at h'; cases h'
+        · omega
+    simp [hl, hst]
+  · have : s.loops = 1 := by omega
+    simp [this]
+
+/-- a Stop that is pending while the loop ends on its own (failed keep-alive) returns: the agent is left stopped, the
+failure waits to be collected -/
+theorem stop_pending_when_loop_dies (s : Life) (hl : s.loops = 1) :
+    let s1 := (lifeStep s (.tick false)).1
+    (lifeStep s1 .stop).2 = .ignored ∧ (lifeStep s1 .stop).1.loops = 0 ∧ (lifeStep s1 .stop).1.started = false ∧
+    (lifeStep s1 .stop).1.waitBuf = s.waitBuf ++ [false] := by
+  simp [lifeStep, hl]
+
 /-- a full cycle: start, three intervals, stop, wait, start again -/
 theorem restart_after_stop :
     let s := lifeRun {} [.startBegin, .startFinish true, .tick true, .tick true, .tick true, .stop, .wait, .startBegin, .startFinish true]
